@@ -1,0 +1,119 @@
+//! Read-only accessors and thin wrappers used by the external verification
+//! harness. Compiled only with the `verif_hooks` cargo feature; nothing in
+//! rustfmt itself depends on this module.
+
+use std::cmp::Ordering;
+use std::io::{self, Write};
+use std::path::PathBuf;
+
+use crate::emitter::FormattedFile;
+use crate::rustfmt_diff::{self, DiffLine, ModifiedLines};
+use crate::{Config, EmitMode, ErrorKind, FileName, FormatReport, create_emitter};
+
+/// One formatting error of a report: (file, line, kind, found, max, exempt_hint).
+/// `exempt_hint` is true when the error is flagged as sitting on a comment or
+/// string-literal line.
+pub fn report_errors(report: &FormatReport) -> Vec<(String, usize, String, usize, usize, bool)> {
+    let internal = report.internal.borrow();
+    let mut v = Vec::new();
+    for (file, errs) in internal.0.iter() {
+        for e in errs {
+            let (kind, found, max) = match e.kind {
+                ErrorKind::LineOverflow(found, max) => ("LineOverflow", found, max),
+                ErrorKind::TrailingWhitespace => ("TrailingWhitespace", 0, 0),
+                ErrorKind::DeprecatedAttr => ("DeprecatedAttr", 0, 0),
+                ErrorKind::BadAttr => ("BadAttr", 0, 0),
+                ErrorKind::LostComment => ("LostComment", 0, 0),
+                ErrorKind::IoError(_) => ("IoError", 0, 0),
+                ErrorKind::ParseError => ("ParseError", 0, 0),
+                ErrorKind::VersionMismatch => ("VersionMismatch", 0, 0),
+                _ => ("Other", 0, 0),
+            };
+            v.push((
+                file.to_string(),
+                e.line,
+                kind.to_owned(),
+                found,
+                max,
+                !e.msg_suffix().is_empty(),
+            ));
+        }
+    }
+    v.sort();
+    v
+}
+
+/// The line ranges of the output that were copied verbatim from the input.
+pub fn non_formatted_ranges(report: &FormatReport) -> Vec<(usize, usize)> {
+    report.non_formatted_ranges.clone()
+}
+
+/// The comparison used for the 2024 version-sort.
+pub fn version_sort(a: &str, b: &str) -> Ordering {
+    crate::sort::version_sort(a, b)
+}
+
+#[derive(Debug, Clone, PartialEq, Eq)]
+pub enum DiffLineV {
+    Context(String),
+    Expected(String),
+    Resulting(String),
+}
+
+#[derive(Debug, Clone, PartialEq, Eq)]
+pub struct MismatchV {
+    pub line_number: u32,
+    pub line_number_orig: u32,
+    pub lines: Vec<DiffLineV>,
+}
+
+/// `make_diff(original, formatted, context)` with its result copied into public types.
+pub fn make_diff(original: &str, formatted: &str, context_size: usize) -> Vec<MismatchV> {
+    rustfmt_diff::make_diff(original, formatted, context_size)
+        .into_iter()
+        .map(|m| MismatchV {
+            line_number: m.line_number,
+            line_number_orig: m.line_number_orig,
+            lines: m
+                .lines
+                .into_iter()
+                .map(|l| match l {
+                    DiffLine::Context(s) => DiffLineV::Context(s),
+                    DiffLine::Expected(s) => DiffLineV::Expected(s),
+                    DiffLine::Resulting(s) => DiffLineV::Resulting(s),
+                })
+                .collect(),
+        })
+        .collect()
+}
+
+/// The modified-lines report for a pair of texts.
+pub fn modified_lines(original: &str, formatted: &str) -> ModifiedLines {
+    ModifiedLines::from(rustfmt_diff::make_diff(original, formatted, 0))
+}
+
+/// Runs the emitter selected by `mode` (header, one file, footer) over a pair
+/// of texts chosen by the caller. Returns the emitter's `has_diff`.
+pub fn emit_pair(
+    name: &str,
+    original: &str,
+    formatted: &str,
+    mode: EmitMode,
+    out: &mut dyn Write,
+) -> io::Result<bool> {
+    let mut config = Config::default();
+    config.set().emit_mode(mode);
+    let mut emitter = create_emitter(&config);
+    let filename = FileName::Real(PathBuf::from(name));
+    emitter.emit_header(out)?;
+    let res = emitter.emit_formatted_file(
+        out,
+        FormattedFile {
+            filename: &filename,
+            original_text: original,
+            formatted_text: formatted,
+        },
+    )?;
+    emitter.emit_footer(out)?;
+    Ok(res.has_diff)
+}
